@@ -144,12 +144,12 @@ theorem consumeAtomEscape_ens (st : PState) (hi : Inv st) :
     have hs := fun h => decimalLiteral_digit_ok h hx
     have hs := hs (by simp [isAsciiDigit] at *; omega)
     exact atomEscPost_mk hi (leaf_backRef _ _) (by rw [hinp]; exact SSuf.of_tail _ hs)
-  · have hx := ‹characterEscape _ st.input = _›
+  · have hx := ‹characterEscape _ _ st.input = _›
     rw [hinp] at hx
-    exact (characterEscape_ens _ _ _ hb).error_of_eq hx
-  · have hx := ‹characterEscape _ st.input = _›
+    exact (characterEscape_ens _ _ _ _ hb).error_of_eq hx
+  · have hx := ‹characterEscape _ _ st.input = _›
     rw [hinp] at hx
-    have h1 := (characterEscape_ens _ _ _ hb).ok_of_eq hx
+    have h1 := (characterEscape_ens _ _ _ _ hb).ok_of_eq hx
     exact atomEscPost_mk hi ((charNode_ens _ _).ok_of_eq ‹charNode _ _ = _›) (by rw [hinp]; exact h1.1)
   -- \k<name>
   · obtain ⟨e, he, h0⟩ := mapGet_mem ‹mapGet st.named _ = _›
@@ -160,12 +160,12 @@ theorem consumeAtomEscape_ens (st : PState) (hi : Inv st) :
     exact atomEscPost_mk hi (backRefs_leaf _ _) (by rw [hinp]; exact SSuf.of_tail _ h1)
   · exact atomEscPost_mk hi ((charNode_ens _ _).ok_of_eq ‹charNode _ _ = _›) (by rw [hinp]; ssuf_tac)
   -- identity / control escapes
-  · have hx := ‹characterEscape _ st.input = _›
+  · have hx := ‹characterEscape _ _ st.input = _›
     rw [hinp] at hx
-    exact (characterEscape_ens _ _ _ hb).error_of_eq hx
-  · have hx := ‹characterEscape _ st.input = _›
+    exact (characterEscape_ens _ _ _ _ hb).error_of_eq hx
+  · have hx := ‹characterEscape _ _ st.input = _›
     rw [hinp] at hx
-    have h1 := (characterEscape_ens _ _ _ hb).ok_of_eq hx
+    have h1 := (characterEscape_ens _ _ _ _ hb).ok_of_eq hx
     exact atomEscPost_mk hi ((charNode_ens _ _).ok_of_eq ‹charNode _ _ = _›) (by rw [hinp]; exact h1.1)
 
 open Regress Regress.IR
@@ -202,10 +202,10 @@ def atomBackslashA (st0 : PState) (result : List Node) : Res AtomOut :=
     | e :: rest =>
       if e == 0x62 then
         .ok ⟨result ++ [.wordBoundary false (fl.unicode && fl.icase)], { st with input := rest },
-          startOffset, true⟩
+          startOffset, false⟩
       else if e == 0x42 then
         .ok ⟨result ++ [.wordBoundary true (fl.unicode && fl.icase)], { st with input := rest },
-          startOffset, true⟩
+          startOffset, false⟩
       else if e == 0x63 && !fl.unicode then
         match rest with
         | n :: rest2 =>
@@ -290,7 +290,7 @@ def atomClassSetA (st0 : PState) (result : List Node) : Res AtomOut :=
   | .error e => .error e
   | .ok (_, st) =>
     let (negateSet, st) := tryConsume 0x5E st
-    match classSetExpression fl (2 * st.input.length + 4) negateSet
+    match classSetExpression fl (!st.named.isEmpty) (2 * st.input.length + 4) negateSet
         { inp := st.input, depth := st.depth } with
     | .error e => .error e
     | .ok (cs, cst) =>
@@ -338,7 +338,7 @@ def consumeAtomA (cd : PState → Res (Node × PState)) (st : PState) (result : 
   else if c == 0x28 then atomParenA cd st result
   else if c == 0x5B && fl.unicodeSets then atomClassSetA st result
   else if c == 0x5B then
-    match consumeBracket fl st.input with
+    match consumeBracket fl (!st.named.isEmpty) st.input with
     | .error e => .error e
     | .ok (nd, rest) => .ok ⟨result ++ [nd], { st with input := rest }, startOffset, true⟩
   else if c == 0x7B && !fl.unicode then atomBraceA st result
@@ -751,7 +751,7 @@ theorem atomClassSetA_ens {st : PState} (hi : Inv st) {c : Nat} {rest0 : List Na
   obtain ⟨negateSet, st1⟩ := tc
   simp only at h1 ⊢
   have hsuf : st1.input <:+ rest0 := h1.1.suf
-  have h := (classSet_all st.flags (2 * st1.input.length + 4)).expr negateSet
+  have h := (classSet_all st.flags (!st1.named.isEmpty) (2 * st1.input.length + 4)).expr negateSet
     { inp := st1.input, depth := st1.depth }
     ⟨by show 2 * st1.input.length + 2 ≤ _; omega, h1.1.inv.bnd, h1.1.inv.depth⟩
   split
@@ -823,7 +823,7 @@ theorem consumeAtomA_ens {cd : PState → Res (Node × PState)} {st : PState} (h
   split
   · exact atomClassSetA_ens hi result hinp
   split
-  · have h := consumeBracket_ens st.flags c rest0 (hinp ▸ hi.bnd)
+  · have h := consumeBracket_ens st.flags (!st.named.isEmpty) c rest0 (hinp ▸ hi.bnd)
     rw [hinp]
     split
     · rename_i e heq; exact h.error_of_eq heq
